@@ -162,6 +162,14 @@ func (fv *FuncVerifier) evalCall(st *State, env *Env, call *ast.CallExpr) []Term
 			}
 		}
 	}
+	// local function variable bound once to a literal whose contract says `modular`: the call is replaced by the
+	// literal's contract (precondition checked, what the literal writes havocked, postcondition assumed). This is how
+	// a recursive local closure (var f func(..); f = func(..) { .. f(..) .. }) is verified: once, as a unit.
+	if id, ok := fun.(*ast.Ident); ok && !env.spec {
+		if lit := fv.modularLitOf(env.info.ObjectOf(id)); lit != nil {
+			return fv.callLitModular(st, env, call, lit)
+		}
+	}
 	// package-level function variable with an (assumed) contract
 	{
 		var vobj types.Object
@@ -246,6 +254,102 @@ func (fv *FuncVerifier) evalCall(st *State, env *Env, call *ast.CallExpr) []Term
 		}
 	}
 	_ = w
+	return res
+}
+
+// modularLitOf: the function literal a local variable is bound to (by its only assignment in the function under
+// verification), if that literal's contract carries `modular`.
+func (fv *FuncVerifier) modularLitOf(o types.Object) *ast.FuncLit {
+	if o == nil || fv.fn == nil || fv.fn.Contr == nil || fv.fn.Decl == nil {
+		return nil
+	}
+	if fv.modularLits == nil {
+		fv.modularLits = map[types.Object]*ast.FuncLit{}
+		count := map[types.Object]int{}
+		info := fv.fn.Pkg.TypesInfo
+		ast.Inspect(fv.fn.Decl, func(n ast.Node) bool {
+			as, ok := n.(*ast.AssignStmt)
+			if !ok || len(as.Lhs) != len(as.Rhs) {
+				return true
+			}
+			for i, l := range as.Lhs {
+				id, ok := l.(*ast.Ident)
+				if !ok {
+					continue
+				}
+				ob := info.ObjectOf(id)
+				if ob == nil {
+					continue
+				}
+				count[ob]++
+				if lit, ok := ast.Unparen(as.Rhs[i]).(*ast.FuncLit); ok {
+					fv.modularLits[ob] = lit
+				}
+			}
+			return true
+		})
+		for ob, lit := range fv.modularLits {
+			ord, known := fv.lits[lit]
+			if count[ob] != 1 || !known || !fv.fn.Contr.Has("modular", ord) {
+				delete(fv.modularLits, ob)
+			}
+		}
+	}
+	return fv.modularLits[o]
+}
+
+// callLitModular applies the contract of a local literal at a call through the variable it is bound to.
+func (fv *FuncVerifier) callLitModular(st *State, env *Env, call *ast.CallExpr, lit *ast.FuncLit) []Term {
+	info := fv.fn.Pkg.TypesInfo
+	ord := fv.lits[lit]
+	var sig *types.Signature
+	if t, ok := info.Types[lit]; ok {
+		sig, _ = t.Type.Underlying().(*types.Signature)
+	}
+	if sig == nil {
+		sig = types.NewSignatureType(nil, nil, nil, nil, nil, false)
+	}
+	args := fv.evalArgs(st, env, call, sig)
+	binds := map[types.Object]Term{}
+	i := 0
+	for _, f := range lit.Type.Params.List {
+		for _, n := range f.Names {
+			if o := info.Defs[n]; o != nil && i < len(args) {
+				binds[o] = fv.coerce(args[i], fv.sortOf(o.Type()))
+			}
+			i++
+		}
+		if len(f.Names) == 0 {
+			i++
+		}
+	}
+	for _, rc := range fv.fn.Contr.Get("requires", 0, ord) {
+		g := fv.evalLitClauseFor(fv.fn, ord, st, rc, binds, nil, st, binds)
+		fv.obligeNamedAt(st, "F", fmt.Sprintf("lit-requires[lit%d,%d]", ord, rc.Ord), g, call.Lparen, "precondition of local closure (modular call): "+rc.Text)
+		st.Assume(g)
+	}
+	pre := st.Clone()
+	// what the literal writes, minus its own parameters and locals (each activation has its own)
+	ws := &writeSet{vars: map[types.Object]bool{}, heap: map[string]bool{}}
+	fv.collectWrites(&Env{info: info}, lit.Body, ws, 0)
+	for o := range ws.vars {
+		if o.Pos() >= lit.Pos() && o.Pos() < lit.End() {
+			delete(ws.vars, o)
+		}
+	}
+	fv.applyHavoc(st, ws)
+	fv.growAlloc(st)
+	res := fv.freshResults(st, sig)
+	names := map[string]Term{}
+	for k, r := range res {
+		names[fmt.Sprintf("result%d", k)] = r
+		if len(res) == 1 {
+			names["result"] = r
+		}
+	}
+	for _, ec := range fv.fn.Contr.Get("ensures", 0, ord) {
+		st.Assume(fv.evalLitClauseFor(fv.fn, ord, st, ec, binds, names, pre, binds))
+	}
 	return res
 }
 
